@@ -16,7 +16,7 @@ impl Property for C06 {
         "C06"
     }
     fn rule(&self) -> &'static str {
-        "profile `binding`: signal lists of 2-10 signals in any interleaving of kinds, widths and defaults (numbers incl. 64-bit, Z); header = random subset and permutation of the legal column names (name for inputs/outputs/virtuals, name and/or name_out for bidirectionals, pairs split or partial); loop-free programs of 2-7 rows whose literal in column j of row r is a tag distinct from its neighbours' and fitting the width; Z in input columns, Z/X in expected columns; consecutive rows repeat or change single columns. Oracle: closed formulas - inputs = input-capable signals in list order, each from its column or its default; outputs = output-capable signals in list order then virtual signals, each expected value from name / name_out or X; changed==false => value equals the previous vector handed to the driver (from the log); header-omitted inputs never flagged changed. Non-trivial: header order != list order, or an omitted signal, or a split bidirectional pair, with >= 2 rows; distinct by signal list + header + rows."
+        "profile `binding`: signal lists of 2-10 signals in any interleaving of kinds, widths and defaults (numbers incl. 64-bit, Z); header = random subset and permutation of the legal column names (name for inputs/outputs/virtuals, name and/or name_out for bidirectionals, pairs split or partial); loop-free programs of 2-7 rows whose literal in column j of row r is a tag distinct from its neighbours' and fitting the width; Z in input columns, Z/X in expected columns; consecutive rows repeat or change single columns or return to the value before (v, w, v); in a third of the cases the driver fails on one row's call, in some cases with virtual signals the device answers Z/X so that a row becomes an error item after its vector was handed over - the caller goes on. Oracle: closed formulas - inputs = input-capable signals in list order, each from its column or its default; outputs = output-capable signals in list order then virtual signals, each expected value from name / name_out or X; changed==false => value equals the previous vector handed to the driver (from the log); header-omitted inputs never flagged changed. Non-trivial: header order != list order, or an omitted signal, or a split bidirectional pair, with >= 2 rows; distinct by signal list + header + rows."
     }
     fn cases(&self, tier: Tier) -> u64 {
         match tier {
@@ -28,7 +28,7 @@ impl Property for C06 {
         [300, 8, 12]
     }
     fn required_classes(&self) -> Vec<&'static str> {
-        vec!["header-permuted", "input-omitted", "output-omitted", "bidir-split", "bidir-out-only", "virtual-column", "changed=false", "changed=true", "Z-default", "Z-input-entry"]
+        vec!["header-permuted", "input-omitted", "output-omitted", "bidir-split", "bidir-out-only", "virtual-column", "changed=false", "changed=true", "Z-default", "Z-input-entry", "row-after-error-item"]
     }
     fn run(&self, s: &Streams) -> CaseOut {
         let mut out = CaseOut::new();
@@ -70,6 +70,11 @@ impl Property for C06 {
                     row.push(grid[r - 1][j]);
                     continue;
                 }
+                // or return to the value of the row before that (v, w, v)
+                if r > 1 && ch.chance(1, 3) {
+                    row.push(grid[r - 2][j]);
+                    continue;
+                }
                 let maxv: u64 = if col.min_bits >= 16 { 0xFFFF } else { (1u64 << col.min_bits) - 1 };
                 let tag = (r as u64 * 7 + j as u64 * 3 + 1 + ch.upto(3) as u64) % (maxv + 1);
                 let cell = match col.role {
@@ -104,8 +109,18 @@ impl Property for C06 {
         }
         let prog = Program { header: header.clone(), stmts };
         let text = canonical(&prog).text;
-        let spec = DriverSpec::honest(&sigs, Ch::new(&s[2]).u64(), Palette::Small);
-        render_case(&mut out, &text, &sigs, None);
+        let mut dch = Ch::new(&s[2]);
+        let mut spec = DriverSpec::honest(&sigs, dch.u64(), Palette::Small);
+        // in a third of the cases the driver fails on one row's call; in a quarter of those with
+        // virtual signals the device answers Z/X now and then, so that rows become error items
+        // after their vector was handed over. The caller goes on either way.
+        if dch.chance(1, 3) {
+            spec.fail_at = Some(1 + dch.upto(nrows));
+        }
+        if !virtuals.is_empty() && dch.chance(1, 4) {
+            spec.zx = 60;
+        }
+        render_case(&mut out, &text, &sigs, Some(&spec));
 
         // classes
         let canon_header = gen_header(&mut Ch::new(&[]), &Cfg { permute_header: false, omit_cols: false, ..cfg.clone() }, &sigs, &virtuals);
@@ -137,7 +152,7 @@ impl Property for C06 {
         let Some(tc) = load_wellformed(&mut out, "c06", &text, &sigs) else {
             return out;
         };
-        let real = run_real(&tc, &sigs, &spec, &RunOpts { max_next: nrows + 1, ..Default::default() });
+        let real = run_real(&tc, &sigs, &spec, &RunOpts { max_next: nrows + 1, continue_after_error: true, continue_after_driver_error: true, ..Default::default() });
         if let Some(c) = &real.ctor {
             match c {
                 RealItem::Panic(p) => out.fail(p.key(), format!("constructor panicked: {p}")),
@@ -146,9 +161,27 @@ impl Property for C06 {
             return out;
         }
         let cell_at = |r: usize, name: &str| -> Option<Cell> { header.iter().position(|h| h == name).map(|j| grid[r][j]) };
+        let mut after_error = false;
         for r in 0..nrows {
+            // loop-free rows without C or X: item r is answered by call r + 1 (call 0 = constructor)
+            if !matches!(real.items.get(r), None | Some(RealItem::Panic(_))) && real.log_len_before.get(r + 1).copied() != Some(r + 2) {
+                out.discard("call-protocol-broken");
+                return out;
+            }
             let row = match real.items.get(r) {
-                Some(RealItem::Row(row)) => row,
+                Some(RealItem::Row(row)) => {
+                    out.class_if(after_error, "row-after-error-item");
+                    row
+                }
+                Some(RealItem::DriverErr(_)) if spec.fail_at == Some(r + 1) => {
+                    after_error = true;
+                    continue;
+                }
+                // a virtual signal read Z/X in the answer to this row's call (C14)
+                Some(RealItem::RuntimeErr(_)) if spec.zx > 0 && real.log[r + 1].answer.iter().any(|a| !matches!(a.1, OutVal::Val(_))) => {
+                    after_error = true;
+                    continue;
+                }
                 Some(RealItem::Panic(p)) => {
                     out.fail(p.key(), format!("row {r} panicked: {p}"));
                     return out;
